@@ -7,7 +7,7 @@ import (
 func init() {
 	register("P-REGISTER", "import-name registration, decided on every acyclic path (loop unrolled twice) with a small abstract domain: first registration wins; \"C\" is stored as {\"C\", no alias}; a stored name without alias is a raw hint / standard-library name; guessed or modified (prefixed / numbered) names are aliases; the name stored is the very name that passed the validity test and is the one returned; modifications never touch \".\"; hints, prefix and numbering are never applied to \"C\"", 10, rulePXRegister)
 	register("P-VALIDALIAS", "validity predicate: \".\" is accepted unconditionally and first; reserved words are rejected; the candidate is compared with the name of every entry of File.imports (no entry skipped)", 3, rulePXValidAlias)
-	register("P-LOCALDOT", "isLocal is exactly string equality with the File's path; isDotImport is exactly hints[path] = {\".\", alias}", 2, rulePXLocalDot)
+	register("P-LOCALDOT", "isLocal is exactly string equality with the File's path; isDotImport is exactly hints[path] = {\".\", alias} for an unregistered path and \"registered as .\" for a registered one", 2, rulePXLocalDot)
 }
 
 // abstract value
